@@ -9,7 +9,50 @@ for ln in (VERIF / "properties.jsonl").read_text().splitlines():
     TITLES[p["id"]] = p["title"]
 
 # id -> (technique, level text, level note, design ref)
+NOTE_AUTOJAC = ("Trusted: Lean kernel; contract of torch.autograd.grad (DESIGN §3); the harness; the hand-written model "
+                "lean/TjdModel/Autojac/*.lean, tied to /repo on every run by exact differential execution on P-int "
+                "programs. Floating point is not modelled (values are integers, hence exact in float32/64).")
 CLAIMED = {
+    "C01": ("Lean 4 theorems (backward_eq_spec, backward_order_indep, ...) over all engines/aggregators/orders/chunk "
+            "sizes + exact correspondence of the executable model with torchjd.backward on random integer programs",
+            "backward_eq_spec proves, for every autograd engine, tensor list, input order, aggregator, chunk size and "
+            "initial .grad, that the model of Accumulate∘Aggregate∘Jac∘Diagonalize∘Init deposits exactly the slices of "
+            "A(J); the same model function is executed against the real backward() and .grad is compared exactly.",
+            NOTE_AUTOJAC, "DESIGN.md §5 C01"),
+    "C02": ("Lean 4 theorem mtl_eq_spec (+ row order, task params under any aggregator, overlap rejection) + exact "
+            "correspondence with torchjd.mtl_backward on random trunk/heads programs",
+            "mtl_eq_spec characterises every .grad after mtl_backward for all engines, task lists, parameter lists and "
+            "aggregators; the model is executed against the real mtl_backward (explicit, defaulted and one-shot iterable "
+            "parameter collections) with exact comparison.", NOTE_AUTOJAC, "DESIGN.md §5 C02"),
+    "C05": ("Lean 4 theorems (constant_fullJac_eq_vjp, backward_constant_eq_autograd, backward_sum_eq_autograd) + twin-graph "
+            "comparison with torch.autograd.backward",
+            "Linear aggregators are proved to deposit the vector-Jacobian product torch.autograd computes (engine contract); "
+            "torchjd and torch.autograd are run on twin graphs and compared exactly (integer programs) or to 1e-10 (smooth).",
+            NOTE_AUTOJAC, "DESIGN.md §5 C05"),
+    "C06": ("Lean 4 refinement proof of a heap with storage identities to the abstract .grad state (accumulate_refines, "
+            "created_grad_is_fresh, frame, backward_repeat) + history correspondence incl. storage pointers",
+            "Accumulation/creation/frame/freshness are proved for all histories over the heap model; real call histories "
+            "(with zeroing, None, in-place edits) are compared step by step with the model: values, tensor data, aliasing.",
+            NOTE_AUTOJAC, "DESIGN.md §5 C06"),
+    "C07": ("Lean 4 theorems on the literal chunk index arithmetic (chunks_partition/count/size, jac_chunk_irrelevant, "
+            "no_vmap_when_sequential) + exhaustive (m,k) correspondence with sweep-counting hooks",
+            "Chunk ranges tile the rows for every m and k, the update is chunk-independent (proved on the model of "
+            "backward and mtl_backward); all (m,k) pairs up to 8 (quick) / 12 (thorough) are run on the real code with a "
+            "hook observing every sweep and a vmap-incompatible op for the sequential cases.",
+            NOTE_AUTOJAC, "DESIGN.md §5 C07"),
+    "C12": ("Lean 4 correctness proof of the breadth-first walk (bfs_eq_reach, termination fuel, tensor-level "
+            "reachability) + defaulted-vs-explicit correspondence on extracted autograd graphs",
+            "The walk of _get_descendant_accumulate_grads is proved to return exactly the AccumulateGrad nodes reachable "
+            "without entering an excluded tensor, for all graphs; the real graph of every generated program is extracted "
+            "and handed to the model; defaulted and explicit calls are compared on twin graphs.",
+            NOTE_AUTOJAC, "DESIGN.md §5 C12"),
+    "C13": ("Lean 4 theorems on a liveness model of the engine (backward_liveness_eq_single, mtl_liveness_eq_joint, "
+            "retain_true_identity) + call-history correspondence with twin graphs driven by torch.autograd",
+            "Relative to the engine's liveness contract, chunked backward is proved equivalent to one engine call and "
+            "mtl_backward to the joint call; histories of up to 3 calls are run on the real code, on a torch-driven twin and "
+            "on the model over the extracted graph.",
+            NOTE_AUTOJAC + " The liveness contract (which nodes a call executes/releases) is assumed and validated by the "
+            "twin comparison; the cut condition of mtl_liveness_eq_joint is a hypothesis.", "DESIGN.md §5 C13"),
     "C14": (
         "Lean 4 theorems over an inductive term language (type soundness by structural induction) + "
         "exhaustive/sampled correspondence of the typing model with the real transforms",
@@ -19,6 +62,17 @@ CLAIMED = {
         "Trusted: Lean kernel; harness; the model is shape-level (no tensor values). Error kinds inside "
         "ill-typed applications are diagnostics only.",
         "DESIGN.md §5 C14"),
+    "C15": ("Lean 4 theorems per transform (grad_is_vjp, jac_rows_are_grads, diagonalize_spec, stack_spec, "
+            "aggregate_spec, ...) + exact correspondence driving each transform directly",
+            "Each building-block transform is specified by a theorem for all key counts/shapes/batch/chunk sizes; the "
+            "real transforms are driven directly with integer cotangents and compared exactly with the model.",
+            NOTE_AUTOJAC + " Chaining (jac_chain) is checked on the implementation only (no Lean theorem).",
+            "DESIGN.md §5 C15"),
+    "C20": ("Lean 4 theorems (backward_rejected_changes_nothing for every error path, mtl_rejected_changes_nothing for "
+            "every argument fault, pre-fix counter-witness) + malformed-stream correspondence with .grad snapshots",
+            "For every rejection the model is proved to leave all .grad unchanged; every rejection kind is injected at "
+            "every argument position on random programs and the real .grad snapshot is compared.",
+            NOTE_AUTOJAC, "DESIGN.md §5 C20"),
 }
 PENDING_REASON = "check not built yet in this round (see DESIGN.md §9 order of work); nothing is claimed for it"
 
